@@ -43,7 +43,9 @@ LEVEL_TEXT = ("Proof (Coq, no axioms) about the model of dmrs.from_mrs: nodes ar
               "the structure of the result; MRS->DMRS->MRS isomorphism, preservation of top/index and "
               "the re-conversion fixpoint are checked on every generated structure by the oracle.")
 LEVEL_NOTE = ("Partial: the round-trip isomorphism and the re-conversion fixpoint are not proved (oracle only). F8 "
-              "(representative-less scope of a 'well-formed' MRS raises IndexError) is a known finding.")
+              "(representative-less scope of a 'well-formed' MRS raises IndexError) and F32 (a label sharer of a scopal operator "
+              "whose argument lies below the operator loses its label in the round trip: MOD/EQ links are only made between "
+              "scope representatives) are known findings.")
 TECHNIQUE = "Coq proof (link justification, structure of from_dmrs) + kernel-checked correspondence of both conversions + round-trip oracle"
 DESIGN_REF = "DESIGN.md section 6, C04"
 
@@ -76,7 +78,63 @@ def gen(rng, tier):
                                           "nodes": [[n["id"], n["pred"], n["type"], n["props"], n["carg"]]
                                                     for n in g["nodes"]],
                                           "links": g["links"]}})
+    # a modifier that shares the label of a scopal operator and takes as its argument a predication
+    # below that operator ("probably ... often sleeps"): the two share a label without an argument
+    # between them, and the modifier's argument lies in the scope's descendants
+    for op, mod, verb, subj in (("_probably_a_1", "_often_a_1", "_sleep_v_1", True),
+                                ("neg", "_again_a_1", "_bark_v_1", True),
+                                ("_probably_a_1", "_often_a_1", "_rain_v_1", False)):
+        for q_first in (False, True):
+            cases.append({"k": "conv", "wf": True, "m": _sharer_below(op, mod, verb, subj, q_first), "family": "sharer-below"})
     return cases
+
+
+def _sharer_below(op, mod, verb, subj, q_first):
+    rels = [{"pred": op, "label": "h1", "args": [["ARG0", "e2"], ["ARG1", "h4"]]},
+            {"pred": mod, "label": "h1", "args": [["ARG0", "e9"], ["ARG1", "e5"]]},
+            {"pred": verb, "label": "h6", "args": [["ARG0", "e5"]] + ([["ARG1", "x3"]] if subj else [])}]
+    hcons = [["h0", "qeq", "h1"], ["h4", "qeq", "h6"]]
+    vars_ = [["e2", []], ["e9", []], ["e5", [["TENSE", "pres"]]]]
+    if subj:
+        q = [{"pred": "proper_q", "label": "h7", "args": [["ARG0", "x3"], ["RSTR", "h8"], ["BODY", "h10"]]},
+             {"pred": "named", "label": "h11", "args": [["ARG0", "x3"], ["CARG", "Kim"]]}]
+        rels = q + rels if q_first else rels + q
+        hcons.append(["h8", "qeq", "h11"])
+        vars_.append(["x3", [["NUM", "sg"]]])
+    return {"top": "h0", "index": "e2", "rels": rels, "hcons": hcons, "icons": [], "vars": vars_}
+
+
+def _is_sharer_below(m):
+    """the witness class of F32: two predications share a label, neither is an argument of the other,
+    and one of them takes as a non-scopal argument a predication reached through a scopal argument of
+    the other"""
+    by_iv = dict((a[1], r) for r in m["rels"] for a in r["args"] if a[0] == "ARG0")
+    qeq = dict((h[0], h[2]) for h in m["hcons"])
+    by_label = {}
+    for r in m["rels"]:
+        by_label.setdefault(r["label"], []).append(r)
+
+    def below(r):
+        out, todo = [], [qeq.get(a[1], a[1]) for a in r["args"] if a[1][0] == "h"]
+        while todo:
+            l = todo.pop()
+            for x in by_label.get(l, []):
+                if x not in out:
+                    out.append(x)
+                    todo.extend(qeq.get(a[1], a[1]) for a in x["args"] if a[1][0] == "h")
+        return out
+    for l, group in by_label.items():
+        for a in group:
+            for b in group:
+                if a is b:
+                    continue
+                ivs_a = [x[1] for x in a["args"] if x[0] == "ARG0"]
+                if any(x[1] in ivs_a for x in b["args"] if x[0] != "ARG0"):
+                    continue
+                under = below(a)
+                if any(by_iv.get(x[1]) in under for x in b["args"] if x[0] not in ("ARG0", "CARG") and x[1] in by_iv):
+                    return True
+    return False
 
 
 def nontrivial(c):
@@ -247,6 +305,11 @@ def oracle(c):
 
 
 def known_match(case, failure, known):
+    if isinstance(failure, str) and case.get("k") == "conv" and \
+            failure.startswith("MRS -> DMRS -> MRS is not isomorphic") and _is_sharer_below(case["m"]):
+        for e in known:
+            if e["id"] == "F32":
+                return "F32"
     if isinstance(failure, str) and "IndexError" in failure:
         from harness.props import c07
         if c07._mutual_cycle(case["m"]):
